@@ -87,6 +87,14 @@ func gen(tier string) []proto.Item {
 							s4.Hops = map[int]proto.HopSpec{pos.ttl: {Form: form, From: resp.addr, Perturb: &simnet.Perturb{Field: "q.dst", Op: "responder"}, Tag: "quotes-itself"}}
 							items = append(items, proto.Item{Scn: s4, Class: fmt.Sprintf("%s/%s/%s/%s/from-foreign-host-quoting-itself-as-destination/alone", v, rtag, pos.name, form)})
 						}
+						if resp.name == "target" && !vi.V6 && !simnet.IsICMPError(form) {
+							// the proving reply arrives in an IPv6 datagram from the IPv4-MAPPED form of the target's address: not the
+							// target of an IPv4 run (capture filtering off: the ICMP filter lets ICMPv6 through anyway)
+							s5 := base(v, r.first, r.last, dest)
+							s5.FiltersOff = true
+							s5.Hops = map[int]proto.HopSpec{pos.ttl: {Form: "v6mapped:" + form, From: resp.addr, Tag: "other-family"}}
+							items = append(items, proto.Item{Scn: s5, Class: fmt.Sprintf("%s/%s/%s/%s/from-target-ipv4-mapped-ipv6/alone/filters-off", v, rtag, pos.name, form)})
+						}
 						// together with the position's ordinary reply, before and after it
 						for _, order := range []string{"first", "second"} {
 							s := base(v, r.first, r.last, dest)
